@@ -110,6 +110,12 @@ impl<'tcx> Cx<'tcx> {
         np!(self.tcx.def_path_str(d))
     }
 
+    /// definition path (crate name + the path of the definition itself): the same for an item seen from its own crate and from a
+    /// crate that reaches it through a re-export
+    fn dp(&self, d: DefId) -> String {
+        format!("{}{}", self.tcx.crate_name(d.krate), self.tcx.def_path(d).to_string_no_crate_verbose())
+    }
+
     fn span(&self, sp: Span) -> J {
         let sm = self.tcx.sess.source_map();
         // the call-site span in user code when the span comes from a macro expansion
@@ -124,13 +130,23 @@ impl<'tcx> Cx<'tcx> {
         } else {
             J::Null
         };
-        J::Obj(vec![
+        // every macro of the expansion backtrace, innermost first (`cfg` inside `debug_assert`): only where there is more than one
+        let macs: Vec<J> = if sp.from_expansion() {
+            sp.macro_backtrace().filter_map(|e| e.macro_def_id.map(|d| s(self.path(d)))).collect()
+        } else {
+            vec![]
+        };
+        let mut o = vec![
             ("file", s(file)),
             ("line", n(lo.line)),
             ("col", n(lo.col.0 + 1)),
             ("exp", J::Bool(sp.from_expansion())),
             ("macro", mac),
-        ])
+        ];
+        if macs.len() > 1 {
+            o.push(("macros", J::Arr(macs)));
+        }
+        J::Obj(o)
     }
 
     /// peeled ADT def path of a type (through refs, Box is an ADT itself)
@@ -232,6 +248,11 @@ impl<'tcx> Cx<'tcx> {
             o.push(("rfull", s(np!(self.tcx.def_path_str_with_args(rd, inst.args)))));
             o.push(("rkrate", s(self.tcx.crate_name(rd.krate).to_string())));
             o.push(("rlocal", J::Bool(rd.is_local())));
+            // a function of the sibling crate of the same package (the library as seen from the binary): its definition path, which
+            // does not depend on the re-export it was named through
+            if !rd.is_local() && self.tcx.crate_name(rd.krate) == self.tcx.crate_name(rustc_hir::def_id::LOCAL_CRATE) {
+                o.push(("rdp", s(self.dp(rd))));
+            }
             let shim = !matches!(inst.def, ty::InstanceKind::Item(_));
             o.push(("shim", J::Bool(shim)));
         }
@@ -460,6 +481,7 @@ impl<'tcx> Cx<'tcx> {
         let kind = tcx.def_kind(did);
         let mut o: Vec<(&'static str, J)> = vec![
             ("name", s(self.path(did))),
+            ("dp", s(self.dp(did))),
             ("kind", s(format!("{:?}", kind))),
             ("span", self.span(tcx.def_span(did))),
             ("arg_count", n(body.arg_count)),
